@@ -18,87 +18,102 @@ V = os.path.dirname(os.path.dirname(os.path.abspath(__file__)))
 R4 = {
  "C01": [
   dict(n="", what="datetime data source refactored so that its two error returns sit inside the fork-guard section: the thread keeps the (recursive) registry mutex for good",
-       needs="%{datetime:FMT} expanding to nothing or to more than 79 bytes, then an exec or fork by another thread", checks="C09,C16,C10,C01", missed=None),
+       needs="%{datetime:FMT} expanding to nothing or to more than 79 bytes, then an exec or fork by another thread", checks="C09,C16,C10,C01", missed=True,
+       strengthened='C16 judges the lock depth after the call has returned (not only at the real exec) and its formats drive data sources into their own error paths (over-long / empty datetime formats, unknown cgroup controller, empty env name); C09 got the same formats under threads with a threads-stuck verdict'),
   dict(n="2", what="wrappers resolve execv/execve through dlopen(libc, RTLD_NOLOAD) instead of dlsym(RTLD_NEXT): a second interposer loaded after libsnoopy.so is skipped",
-       needs="another execv/execve interposer behind libsnoopy.so in the preload order", checks="C01", missed=None),
+       needs="another execv/execve interposer behind libsnoopy.so in the preload order", checks="C01", missed=False),
  ],
  "C02": [
   dict(n="", what="getSmallTextFileContent() returns a string literal for 'file too large' while its caller (cgroup source) frees what it gets: abort in the caller",
-       needs="%{cgroup}/%{systemd_unit_name} and a /proc/<pid>/cgroup of 10240 bytes or more", checks="C02,C03", missed=None),
-  dict(n="2", what="fflush(stdout) moved after the signal mask is restored: the real write happens with SIGPIPE unblocked", needs="output stdout on a pipe whose reader is gone", checks="C03,C02", missed=None),
+       needs="%{cgroup}/%{systemd_unit_name} and a /proc/<pid>/cgroup of 10240 bytes or more", checks="C02,C03", missed=True,
+       strengthened="C03 natural states with /proc/<pid>/cgroup replaced (bind mount in the driver's namespace) by a 12 KiB file / an unreadable one"),
+  dict(n="2", what="fflush(stdout) moved after the signal mask is restored: the real write happens with SIGPIPE unblocked", needs="output stdout on a pipe whose reader is gone", checks="C03,C02", missed=False),
  ],
  "C03": [
-  dict(n="", what="fork guard moved into configfile_load() around ini_parse(): the early return on a parse/open failure skips the unlock", needs="snoopy.ini absent/unreadable/malformed, then an exec or fork by another thread", checks="C09,C16,C10,C03", missed=None),
-  dict(n="2", what="domain source loops 'while (!feof)' with continue on a NULL fgets: a read error (not EOF) spins forever", needs="%{domain} and read() of /etc/hosts failing (EIO, EISDIR)", checks="C03", missed=None),
+  dict(n="", what="fork guard moved into configfile_load() around ini_parse(): the early return on a parse/open failure skips the unlock", needs="snoopy.ini absent/unreadable/malformed, then an exec or fork by another thread", checks="C09,C16,C10,C03", missed=True,
+       strengthened="C16 runs also start from an absent / unreadable / directory snoopy.ini and judge the lock depth after return (C01's absent-config cases see the held lock at the real exec as built, but C01 was not the property under attack)"),
+  dict(n="2", what="domain source loops 'while (!feof)' with continue on a NULL fgets: a read error (not EOF) spins forever", needs="%{domain} and read() of /etc/hosts failing (EIO, EISDIR)", checks="C03", missed=True,
+       strengthened="C03's persistent faults now start at every read/openat position in turn, not only at the first one of the window"),
  ],
  "C04": [
-  dict(n="", what="file output expands its path template with datasource_message_max_length instead of PATH_MAX-1 as the per-source limit", needs="a path template tag expanding to more than datasource_message_max_length bytes", checks="C04,C05", missed=None),
-  dict(n="2", what="socket(): failure test '== -1' became '<= 0': with descriptor 0 free the socket is taken for a failure", needs="socket/devlog output and a caller with stdin closed", checks="C16,C04", missed=None),
+  dict(n="", what="file output expands its path template with datasource_message_max_length instead of PATH_MAX-1 as the per-source limit", needs="a path template tag expanding to more than datasource_message_max_length bytes", checks="C04,C05", missed=True,
+       strengthened='C05 path templates with a source output longer than a lowered datasource_message_max_length, spread over pre-created directory levels'),
+  dict(n="2", what="socket(): failure test '== -1' became '<= 0': with descriptor 0 free the socket is taken for a failure", needs="socket/devlog output and a caller with stdin closed", checks="C16,C04", missed=False),
  ],
  "C05": [
-  dict(n="", what="literal text in front of a tag copied through the data-source scratch buffer: cut to datasource_message_max_length", needs="a literal run before a tag longer than a lowered datasource_message_max_length", checks="C05", missed=None),
-  dict(n="2", what="inih inline-comment prefixes widened from ';' to ';#': values are cut at ' #'", needs="a '#' preceded by a blank in a format, argument or path", checks="C05,C08", missed=None),
+  dict(n="", what="literal text in front of a tag copied through the data-source scratch buffer: cut to datasource_message_max_length", needs="a literal run before a tag longer than a lowered datasource_message_max_length", checks="C05", missed=False),
+  dict(n="2", what="inih inline-comment prefixes widened from ';' to ';#': values are cut at ' #'", needs="a '#' preceded by a blank in a format, argument or path", checks="C05,C08", missed=False),
  ],
  "C06": [
-  dict(n="", what="#ifdef guards of inputdatastorage.c test an undefined macro name: the module silently becomes one static struct shared by all threads", needs="two threads inside exec at the same time", checks="C09,C06", missed=None),
-  dict(n="2", what="input data ctor no longer resets, and store_argv/envp ignore NULL: an abandoned call's argv shows up in a later NULL-argv call", needs="a call abandoned mid-logging (longjmp / cancel), then a NULL-argv call by the same thread id", checks="C06", missed=None),
+  dict(n="", what="#ifdef guards of inputdatastorage.c test an undefined macro name: the module silently becomes one static struct shared by all threads", needs="two threads inside exec at the same time", checks="C09,C06", missed=False),
+  dict(n="2", what="input data ctor no longer resets, and store_argv/envp ignore NULL: an abandoned call's argv shows up in a later NULL-argv call", needs="a call abandoned mid-logging (longjmp / cancel), then a NULL-argv call by the same thread id", checks="C06", missed=True,
+       strengthened="none: needs a call abandoned in the middle by siglongjmp from a signal handler or by thread cancellation - a state the harness does not construct (DESIGN section 6); the unchanged library has a carry-over of its own in that state (stale registry entry), so generating it would raise alarms that are outside the properties' quantifiers", not_claimed=True),
  ],
  "C07": [
-  dict(n="", what="registry lookup by strncmp(entry, name, strlen(name)): an unknown name that is a prefix of a filter name runs that filter", needs="an unknown chain element that is a proper prefix of a filter name (or empty)", checks="C13,C07", missed=None),
-  dict(n="2", what="fclose() of the stat stream skipped on the 'found' return of exclude_spawns_of: a dropped call execs with an extra open descriptor", needs="exclude_spawns_of matching an ancestor", checks="C16,C15,C07", missed=None),
+  dict(n="", what="registry lookup by strncmp(entry, name, strlen(name)): an unknown name that is a prefix of a filter name runs that filter", needs="an unknown chain element that is a proper prefix of a filter name (or empty)", checks="C13,C07", missed=False),
+  dict(n="2", what="fclose() of the stat stream skipped on the 'found' return of exclude_spawns_of: a dropped call execs with an extra open descriptor", needs="exclude_spawns_of matching an ancestor", checks="C16,C15,C07", missed=False),
  ],
  "C08": [
-  dict(n="", what="an unparsable syslog_facility leaves the current value instead of writing the default", needs="a valid syslog_facility followed by an unparsable one in the same file", checks="C08", missed=None),
-  dict(n="2", what="inih rstrip() uses a hand-written blank set without CR/FF/VT", needs="CRLF line endings (or a line ending in FF/VT)", checks="C08", missed=None),
+  dict(n="", what="an unparsable syslog_facility leaves the current value instead of writing the default", needs="a valid syslog_facility followed by an unparsable one in the same file", checks="C08", missed=True,
+       strengthened='none: the property says both that the last occurrence wins and that unparsable values leave the defaults in force, the unchanged code resets names to the default but keeps the earlier value for booleans; the reference model accepts either for every option (DESIGN A.1 open points), so this change is inside what the model allows', not_claimed=True),
+  dict(n="2", what="inih rstrip() uses a hand-written blank set without CR/FF/VT", needs="CRLF line endings (or a line ending in FF/VT)", checks="C08", missed=False),
  ],
  "C09": [
-  dict(n="", what="datetime source: the strftime()==0 branch returns without leaving the fork guard", needs="an over-long datetime format, then a call by another thread", checks="C09,C16", missed=None),
-  dict(n="2", what="a failed config load switches config-file parsing off for the whole process", needs="one transient load failure in one call, then further calls", checks="C11,C09", missed=None),
+  dict(n="", what="datetime source: the strftime()==0 branch returns without leaving the fork guard", needs="an over-long datetime format, then a call by another thread", checks="C09,C16", missed=True,
+       strengthened='see C01/r4/patch (C09 threads-stuck verdict, C16 lock depth after return)'),
+  dict(n="2", what="a failed config load switches config-file parsing off for the whole process", needs="one transient load failure in one call, then further calls", checks="C11,C09", missed=False),
  ],
  "C10": [
-  dict(n="", what="output dispatch wrapped in the fork guard", needs="a thread blocked in an output (FIFO without reader) while another thread forks", checks="C10,C03", missed=None),
-  dict(n="2", what="datetime source forgets forkGuard_leave on the strftime()==0 return", needs="an over-long datetime format in a call that returns, then fork/exec by another thread", checks="C10,C09,C16", missed=None),
+  dict(n="", what="output dispatch wrapped in the fork guard", needs="a thread blocked in an output (FIFO without reader) while another thread forks", checks="C10,C03", missed=True,
+       strengthened='C10: a fork() that had to wait while a thread was stopped right before an I/O call of its *log output* is a violation (fork-waits-for-log-sink); waiting during the config parse or a lookup is not'),
+  dict(n="2", what="datetime source forgets forkGuard_leave on the strftime()==0 return", needs="an over-long datetime format in a call that returns, then fork/exec by another thread", checks="C10,C09,C16", missed=True,
+       strengthened='see C01/r4/patch'),
  ],
  "C11": [
-  dict(n="", what="wrappers call the real exec first and clean up only if it returns: a vfork child's successful exec leaves the parent with an un-reset configuration record", needs="vfork + successful exec, then a config change, then an exec by the parent", checks="C11,C01", missed=None),
-  dict(n="2", what="a failed config load disables config-file parsing for the process", needs="one call under a deleted/unreadable/damaged file, then calls under a good one", checks="C11", missed=None),
+  dict(n="", what="wrappers call the real exec first and clean up only if it returns: a vfork child's successful exec leaves the parent with an un-reset configuration record", needs="vfork + successful exec, then a config change, then an exec by the parent", checks="C11,C01", missed=False),
+  dict(n="2", what="a failed config load disables config-file parsing for the process", needs="one call under a deleted/unreadable/damaged file, then calls under a good one", checks="C11", missed=False),
  ],
  "C12": [
-  dict(n="", what="getpwuid_r failure merged with 'no entry': a failed lookup reports user-<uid> instead of an error", needs="a fault inside the passwd lookup (EMFILE, ERANGE)", checks="C12,C03", missed=None),
-  dict(n="2", what="tag buffer and argument pointer hoisted out of the per-tag loop: a tag without argument inherits an earlier tag's argument", needs="a tag with argument before a plain %{datetime}", checks="C05,C12,C04", missed=None),
-  dict(n="3", what="hostname buffer one byte short (HOST_NAME_MAX without +1)", needs="a host name of exactly 64 characters", checks="C12", missed=None),
+  dict(n="", what="getpwuid_r failure merged with 'no entry': a failed lookup reports user-<uid> instead of an error", needs="a fault inside the passwd lookup (EMFILE, ERANGE)", checks="C12,C03", missed=True,
+       strengthened='C12 got a lookup-fault arm (in vitro): name sources with a full descriptor table and with a passwd/group entry larger than the lookup buffer; an error text is accepted, a wrong name or the no-such-id placeholder is not'),
+  dict(n="2", what="tag buffer and argument pointer hoisted out of the per-tag loop: a tag without argument inherits an earlier tag's argument", needs="a tag with argument before a plain %{datetime}", checks="C05,C12,C04", missed=False),
+  dict(n="3", what="hostname buffer one byte short (HOST_NAME_MAX without +1)", needs="a host name of exactly 64 characters", checks="C12", missed=False),
  ],
  "C13": [
-  dict(n="", what="data source table row for uid holds snoopy_datasource_euid", needs="real and effective uid differ", checks="C13,C12", missed=None),
-  dict(n="2", what="lookup compares before testing the end marker: the empty name is found one past the end", needs="an empty name", checks="C13,C02", missed=None),
+  dict(n="", what="data source table row for uid holds snoopy_datasource_euid", needs="real and effective uid differ", checks="C13,C12", missed=False),
+  dict(n="2", what="lookup compares before testing the end marker: the empty name is found one past the end", needs="an empty name", checks="C13,C02", missed=False),
  ],
  "C14": [
-  dict(n="", what="filter registry caches its last lookup by the *address* of the name: the chain walker's name buffer has the same address for every element", needs="two differently named filters with arguments in one chain", checks="C07,C14", missed=None),
-  dict(n="2", what="strtol with an INT_MAX upper bound: list entries from 2^31 are skipped", needs="a real uid of 2^31 or above", checks="C14", missed=None),
+  dict(n="", what="filter registry caches its last lookup by the *address* of the name: the chain walker's name buffer has the same address for every element", needs="two differently named filters with arguments in one chain", checks="C07,C14", missed=False),
+  dict(n="2", what="strtol with an INT_MAX upper bound: list entries from 2^31 are skipped", needs="a real uid of 2^31 or above", checks="C14", missed=False),
  ],
  "C15": [
-  dict(n="", what="/proc/<pid>/stat read with open(); 'if (fd <= 0) return -1'", needs="the caller has descriptor 0 closed", checks="C15,C16", missed=None),
-  dict(n="2", what="names compared with strncmp over the length of the process name only: a list item that extends an ancestor's name matches", needs="a list item that begins with an ancestor's name", checks="C15", missed=None),
+  dict(n="", what="/proc/<pid>/stat read with open(); 'if (fd <= 0) return -1'", needs="the caller has descriptor 0 closed", checks="C15,C16", missed=False),
+  dict(n="2", what="names compared with strncmp over the length of the process name only: a list item that extends an ancestor's name matches", needs="a list item that begins with an ancestor's name", checks="C15", missed=False),
  ],
  "C16": [
-  dict(n="", what="'no such user' branch returns early without freeing the getpwuid_r scratch buffer", needs="%{username} and a uid without passwd entry, repeated calls", checks="C16,C11", missed=None),
-  dict(n="2", what="cgroup source's error branch no longer frees the error text returned by the file helper", needs="%{cgroup} and a failing read of /proc/<pid>/cgroup, repeated calls", checks="C16,C03", missed=None),
+  dict(n="", what="'no such user' branch returns early without freeing the getpwuid_r scratch buffer", needs="%{username} and a uid without passwd entry, repeated calls", checks="C16,C11", missed=False),
+  dict(n="2", what="cgroup source's error branch no longer frees the error text returned by the file helper", needs="%{cgroup} and a failing read of /proc/<pid>/cgroup, repeated calls", checks="C16,C03", missed=False),
  ],
  "C17": [
-  dict(n="", what="line built with snprintf into log_message_max_length+1 bytes: a record of exactly the maximum length loses its newline", needs="a record exactly log_message_max_length long", checks="C17,C04,C05", missed=None),
-  dict(n="2", what="flock(LOCK_EX|LOCK_NB) before the write, record dropped when the lock is busy", needs="another writer between its flock and close, or any holder of an flock on the file", checks="C17,C03,C04", missed=None),
+  dict(n="", what="line built with snprintf into log_message_max_length+1 bytes: a record of exactly the maximum length loses its newline", needs="a record exactly log_message_max_length long", checks="C17,C04,C05", missed=False),
+  dict(n="2", what="flock(LOCK_EX|LOCK_NB) before the write, record dropped when the lock is busy", needs="another writer between its flock and close, or any holder of an flock on the file", checks="C17,C03,C04", missed=False),
  ],
  "C18": [
-  dict(n="", what="fclose() of the temporary file dropped: with descriptor 1 closed at start the stream is fd 1 and the [DIAG]/SUCCESS lines land in ld.so.preload at exit", needs="snoopyctl started with stdout closed", checks="C18,C19,C20", missed=None),
-  dict(n="2", what="file size taken from lstat(): a symlinked ld.so.preload is read up to the length of the link target", needs="ld.so.preload is a symlink", checks="C18,C19", missed=None),
+  dict(n="", what="fclose() of the temporary file dropped: with descriptor 1 closed at start the stream is fd 1 and the [DIAG]/SUCCESS lines land in ld.so.preload at exit", needs="snoopyctl started with stdout closed", checks="C18,C19,C20", missed=True,
+       strengthened='C18/C19 start a fifth of the commands without stdout / stderr / stdin (or all three)'),
+  dict(n="2", what="file size taken from lstat(): a symlinked ld.so.preload is read up to the length of the link target", needs="ld.so.preload is a symlink", checks="C18,C19", missed=True,
+       strengthened='in C18/C19 ld.so.preload is a symbolic link (short and long target names) for an eighth of the inputs'),
  ],
  "C19": [
-  dict(n="", what="write-failure branch unlinks filePath instead of tmpFilePath", needs="a write fault while the temporary file is written", checks="C20,C19", missed=None),
-  dict(n="2", what="'other instance' warning prints the matching line with an in-place NUL-terminating helper on the buffer that is written afterwards", needs="the entry shares its line with text that still mentions libsnoopy.so, and further lines below", checks="C19", missed=None),
+  dict(n="", what="write-failure branch unlinks filePath instead of tmpFilePath", needs="a write fault while the temporary file is written", checks="C20,C19", missed=False),
+  dict(n="2", what="'other instance' warning prints the matching line with an in-place NUL-terminating helper on the buffer that is written afterwards", needs="the entry shares its line with text that still mentions libsnoopy.so, and further lines below", checks="C19", missed=True,
+       strengthened='line alphabet of C18/C19 extended by an own entry that shares its line with another entry and a comment naming libsnoopy.so, and an own entry with such a comment'),
  ],
  "C20": [
-  dict(n="", what="fchmod() failure now reported with an unbuffered warning on fd 2 while the temporary file is open", needs="snoopyctl started with stderr closed and fchmod failing", checks="C20,C18", missed=None),
-  dict(n="2", what="short/failed fread accepted ('< 0' on an unsigned count)", needs="a read fault on ld.so.preload (EIO) or a file shrinking between ftell and fread", checks="C20,C18", missed=None),
+  dict(n="", what="fchmod() failure now reported with an unbuffered warning on fd 2 while the temporary file is open", needs="snoopyctl started with stderr closed and fchmod failing", checks="C20,C18", missed=True,
+       strengthened='C20 repeats every injected non-write fault with the command started without stdout and without stderr'),
+  dict(n="2", what="short/failed fread accepted ('< 0' on an unsigned count)", needs="a read fault on ld.so.preload (EIO) or a file shrinking between ftell and fread", checks="C20,C18", missed=False),
  ],
 }
 
